@@ -34,7 +34,7 @@ def plan(tier, seed):
         "assumptions": [
             "input space as in the quantifier: attribute-name local parts are NCNames, strings are XML 1.0 Chars without CR, prov:label values "
             "are plain or language-tagged strings, no literal typed xsd:QName; additionally namespace URIs are ASCII (lxml refuses IRIs as "
-            "namespace names) and URI values do not start with 'prov:'",
+            "namespace names)",
             "the strict snapshot (URI level, kind aware) is the judge; lxml is only used by the library itself",
         ],
     }
@@ -95,7 +95,7 @@ def in_space(doc):
                         if not v.namespace.uri.isascii():
                             return "non-ASCII namespace URI"
                     elif isinstance(v, Identifier):
-                        if v.uri.startswith("prov:") or not xml_char_ok(v.uri):
+                        if not xml_char_ok(v.uri):
                             return "URI value outside the space"
                     if a.uri == "http://www.w3.org/ns/prov#label":
                         if not (isinstance(v, str) or (isinstance(v, pm.Literal) and v.langtag)):
